@@ -1,6 +1,6 @@
 (* C12 - the VM is total, bounded and memory-safe on every script.
    Statements only; every proof is [exact lemma]. *)
-From NG Require Import VM.Model VM.Total VM.LimitsData VM.Limits VM.Reach VM.Static VM.StaticProofs.
+From NG Require Import VM.Model VM.Total VM.LimitsData VM.Limits VM.Reach VM.Static VM.StaticProofs VM.RefsFlat VM.RefsFlatOps VM.RefsFlatStep.
 Open Scope Z_scope.
 
 (* the premise on the price table generated from pkg/core/fee: every opcode costs at least one unit, except the
@@ -82,6 +82,32 @@ Definition C12_refs_never_undercount_statement : Prop :=
   forall n prog sid base limit s,
     (run n (init_state prog sid base limit) = Running s \/ run n (init_state prog sid base limit) = Halted s) ->
     reach_count s <= s_refs s.
+
+(* PARTIAL towards C12_refs_never_undercount_statement.  Proved: along an execution of one script, as long as none of the
+   nine compound-creating instructions (NEWARRAY0 NEWARRAY NEWARRAY_T NEWSTRUCT0 NEWSTRUCT NEWMAP PACK PACKSTRUCT PACKMAP)
+   has been executed - so no Array/Struct/Map exists - the item counter is exact (= the walk) after every instruction and
+   at HALT, through every other instruction incl. slots, calls, exceptions and unloading.
+   Missing: the compound-type instructions (the in-degree invariant of the per-compound counts); for those the
+   inequality is checked on the real VM and on the model at every step of every generated execution (c12). *)
+Theorem C12_refs_exact_flat_partial : forall n s,
+  flat_inv s -> run_no_creator n s ->
+  match run n s with
+  | Running s' => reach_count s' = s_refs s'
+  | Halted s' => reach_count s' = s_refs s'
+  | Faulted _ => True
+  end.
+Proof. exact refs_exact_flat. Qed.
+Print Assumptions C12_refs_exact_flat_partial.
+
+(* its hypotheses hold, e.g., for INITSLOT 1 0; PUSH5; STLOC0; LDLOC0; PUSH3; ADD; CALL +3; RET; NOP; INC; RET *)
+Example C12_refs_exact_flat_example :
+  let s := init_state [87; 1; 0; 21; 112; 104; 19; 158; 52; 3; 64; 33; 156; 64] 1%N 1 100000 in
+  flat_inv s /\ run_no_creator 20 s /\
+  match run 20 s with Halted s' => final_stack s' = [IInt 9] /\ s_refs s' = 1 | _ => False end.
+Proof.
+  cbv zeta. split; [apply init_flat; repeat constructor; lia|].
+  split; vm_compute; repeat split; try reflexivity.
+Qed.
 
 (* non-vacuity of the static check: PUSHA +7 / CALLA into a subroutine passes; the same with the pointer aimed into the
    middle of the PUSHA operand does not *)
